@@ -78,6 +78,12 @@ def k(a: T, b: T) -> T:
 def programs(ctx: common.Ctx, n: int) -> list[dict[str, Any]]:
     out = [{"files": {"main.py": RICH}, "targets": ["main.py"], "flags": ["--warn-unreachable", "--enable-error-code", "redundant-expr"], "id": "rich"},
            {"files": witnesses.KITCHEN["files"], "targets": ["main.py"], "flags": ["--strict"], "id": "kitchen"}]
+    ring = {f"c{i}.py": f"import c{(i + 1) % 5}\nimport c{(i + 2) % 5}\nx{i}: int = 'ring{i}'\ndef f{i}() -> str:\n    return c{(i + 1) % 5}.x{(i + 1) % 5}\n" for i in range(5)}
+    ring["main.py"] = "import c0\nreveal_type(c0.f0())\n"
+    out.append({"files": ring, "targets": ["main.py"], "flags": [], "id": "ring"})
+    miss = "import tomlib\nimport asynchatt\nimport distutil\nimport zoneinfoo\nimport graphlibb\nimport tomllibb\nimport imp_\nimport asyncore_\nx: int = ''\n"
+    out.append({"files": {"main.py": miss}, "targets": ["main.py"], "flags": ["--python-version", "3.12"], "id": "misspelled312"})
+    out.append({"files": {"main.py": miss}, "targets": ["main.py"], "flags": ["--python-version", "3.10"], "id": "misspelled310"})
     k = 0
     while len(out) < n:
         h = histgen.history(("C10", ctx.seed, k), n_steps=3, n_modules=5 + k % 4)
@@ -101,7 +107,7 @@ def cache_diff(a: dict[str, Any], b: dict[str, Any]) -> list[str]:
 def run(ctx: common.Ctx) -> None:
     quick = ctx.tier == "quick"
     scale = float(os.environ.get("VERIF_SCALE", "1"))
-    n_prog = max(3, int((10 if quick else 80) * scale))
+    n_prog = max(6, int((12 if quick else 80) * scale))
     seeds = ["0", "1", "2", "3"] if quick else ["0", "1", "2", "3", "17", "1234", "4294967295", "random"]
     n_perm = max(4, int((60 if quick else 1200) * scale))
     n_hist = max(4, int((24 if quick else 500) * scale))
@@ -151,6 +157,22 @@ def run(ctx: common.Ctx) -> None:
                                       {"program": pid, "fmt": fmt, "seeds": [ref_seed, s], "records": cd[:20],
                                        "example": {k: [ref["cache"].get(k), res["cache"].get(k)] for k in cd[:2] if ".meta." in k}})
                     ctx.cell("a:records-compared", nrec)
+                # warm replay of one cache under different hash seeds
+                warm = {hs: v["warm"] for hs, v in by_seed.items() if "warm" in v}
+                if len(warm) > 1:
+                    w0 = sorted(warm)[0]
+                    for hs, w in sorted(warm.items()):
+                        if hs == w0:
+                            continue
+                        ctx.count()
+                        ctx.cell(f"a:warm-replay-seed-pairs:{fmt}")
+                        if len(w["out"].splitlines()) >= 5:
+                            ctx.nontriv("a-warm", pid, fmt, hs)
+                        if w["out"] != warm[w0]["out"] or w["status"] != warm[w0]["status"]:
+                            same_set = sorted(w["out"].splitlines()) == sorted(warm[w0]["out"].splitlines())
+                            ctx.violation("hashseed:warm-replay-stdout-" + ("order" if same_set else "text"),
+                                          f"warm run on an identical cache prints differently under PYTHONHASHSEED={w0} and {hs} ({pid}, {fmt})",
+                                          {"program": pid, "fmt": fmt, "seeds": [w0, hs], "a": warm[w0]["out"], "b": w["out"]})
                 if len(by_seed) > 1:
                     ctx.sample({"a": pid, "fmt": fmt, "seeds": sorted(by_seed), "stdout_lines": len(ref["out"].splitlines()), "cache_records": len(ref["cache"])})
 
@@ -197,6 +219,9 @@ def run(ctx: common.Ctx) -> None:
                     r = common.rng_for("C10c", j)
                     p = progs[j % len(progs)]
                     prelude = []
+                    if j % 2 == 0:
+                        o = r.choice([x for x in progs if x["id"].startswith("misspelled")] or progs)
+                        prelude.append({"files": o["files"], "flags": o["flags"], "targets": o["targets"], "cold": True})
                     for q in range(r.randint(1, 4)):
                         o = r.choice(progs)
                         prelude.append({"files": o["files"], "flags": r.choice([[], ["--strict"], ["--python-version", "3.10"], ["--no-strict-optional"],
